@@ -18,6 +18,7 @@ import GT.Driver.C17
 import GT.Driver.C18
 import GT.Driver.C19
 import GT.Driver.C20
+import GT.Driver.C09Parse
 import GT.Base.JsonQ
 
 open Lean GT.J
@@ -25,7 +26,7 @@ open Lean GT.J
 namespace GT.Driver
 
 def allOps : List (String × Handler) :=
-  C01.ops ++ C02.ops ++ C03.ops ++ C04.ops ++ C05.ops ++ C06.ops ++ C07.ops ++ C08.ops ++ C09.ops ++ C10.ops ++ C11.ops ++ C12.ops ++ C13.ops ++ C14.ops ++ C15.ops ++ C16.ops ++ C17.ops ++ C18.ops ++ C19.ops ++ C20.ops ++ []
+  C09Parse.ops ++ C01.ops ++ C02.ops ++ C03.ops ++ C04.ops ++ C05.ops ++ C06.ops ++ C07.ops ++ C08.ops ++ C09.ops ++ C10.ops ++ C11.ops ++ C12.ops ++ C13.ops ++ C14.ops ++ C15.ops ++ C16.ops ++ C17.ops ++ C18.ops ++ C19.ops ++ C20.ops ++ []
 
 def dispatch (line : String) : Json :=
   match Json.parse line with
